@@ -51,7 +51,7 @@ def main():
         out['checks'] = {}
         for c in checks:
             t0 = time.time()
-            r = sh(['/verif/check', c, 'quick'], env=dict(os.environ, VERIF_REPO=d))
+            r = sh(['/verif/check', c, 'quick'], env=dict(os.environ, VERIF_REPO=d, VERIF_OUT='/verif/scratch/alt'))
             vio = [l for l in r.stdout.splitlines() if l.startswith('VIOLATION')]
             out['checks'][c] = dict(rc=r.returncode, violation_lines=len(vio), wall_s=round(time.time() - t0), first=(r.stdout.split('first violations:')[1][:500] if 'first violations:' in r.stdout else ''))
     finally:
